@@ -1,6 +1,7 @@
 package main
 
 import (
+	"os"
 	"fmt"
 	"go/ast"
 	"go/token"
@@ -308,7 +309,33 @@ func (fc *fnCtx) instr(in ssa.Instruction) {
 			fc.oblige("typeassert", fc.srcOr(x.Pos(), "typeassert", "assert-to-"+x.AssertedType.String()), okc, x.Pos())
 			fc.set(x, res)
 		}
-	case *ssa.If, *ssa.Jump:
+	case *ssa.Jump:
+	case *ssa.If:
+		// typestate: branch events `then(<cond text>)` / `else(<cond text>)` named by an order rule of the function under
+		// contract: the flag is set exactly on the paths where the comparison written in the source evaluated that way
+		if g.lite && len(fc.topOrders()) > 0 && fc.lexicallyInTop() {
+			txt := ""
+			switch c := x.Cond.(type) {
+			case *ssa.BinOp:
+				txt = g.w.srcAt(c.Pos(), "binop")
+			case *ssa.UnOp:
+				if b, ok := c.X.(*ssa.BinOp); ok && c.Op == token.NOT {
+					txt = "!(" + g.w.srcAt(b.Pos(), "binop") + ")"
+				}
+			}
+			if os.Getenv("GOVC_EVENTS") != "" {
+				fmt.Fprintf(os.Stderr, "branch %q (%T)\n", txt, x.Cond)
+			}
+			if txt != "" {
+				cv := fc.v(x.Cond)
+				if fc.topHasOrderEvent("then(" + txt + ")") {
+					fc.setFlag("then("+txt+")", cv.t[0])
+				}
+				if fc.topHasOrderEvent("else(" + txt + ")") {
+					fc.setFlag("else("+txt+")", "(not "+cv.t[0]+")")
+				}
+			}
+		}
 	case *ssa.Return:
 		var vs []*val
 		for _, r := range x.Results {
@@ -325,7 +352,15 @@ func (fc *fnCtx) instr(in ssa.Instruction) {
 				if o.after == "return" {
 					// `order L: A before return`: every return of the function needs a preceding successful A
 					g.oblige(obligation{name: fmt.Sprintf("order:%s:%s", fnKeyQ(fc.fn), o.label), kind: "order", guard: fc.curR,
-						cond: fmt.Sprintf("(= %s 1)", sel(fc.curH["GL"], evRef, evIndex(o.before))), pos: g.w.posString(x.Pos())})
+						cond: o.happened(fc.curH["GL"]), pos: g.w.posString(x.Pos())})
+					continue
+				}
+				if o.after == "return ok" && len(x.Results) > 0 {
+					// `order L: A before return ok`: a return statement whose error result is the literal nil
+					if g.w.returnsLiteralNil(x.Pos()) {
+						g.oblige(obligation{name: fmt.Sprintf("order:%s:%s", fnKeyQ(fc.fn), o.label), kind: "order", guard: fc.curR,
+							cond: o.happened(fc.curH["GL"]), pos: g.w.posString(x.Pos())})
+					}
 					continue
 				}
 				if o.after != "return nil" || len(vs) == 0 {
@@ -337,7 +372,7 @@ func (fc *fnCtx) instr(in ssa.Instruction) {
 				}
 				g.oblige(obligation{name: fmt.Sprintf("order:%s:%s", fnKeyQ(fc.fn), o.label), kind: "order",
 					guard: fmt.Sprintf("(and %s (= %s 0))", fc.curR, last.t[0]),
-					cond:  fmt.Sprintf("(= %s 1)", sel(fc.curH["GL"], evRef, evIndex(o.before))), pos: g.w.posString(x.Pos())})
+					cond:  o.happened(fc.curH["GL"]), pos: g.w.posString(x.Pos())})
 			}
 		}
 	case *ssa.Panic:
@@ -376,6 +411,11 @@ func (fc *fnCtx) addrText(a ssa.Value) string {
 	case *ssa.Parameter:
 		return x.Name()
 	case *ssa.Alloc:
+		if x.Comment == "complit" || x.Comment == "new" {
+			if n := fc.debugName(a); n != "" && n != "#ambiguous" {
+				return n // `newState := &T{...}`: the variable the literal is (only) assigned to
+			}
+		}
 		if x.Comment != "" {
 			return x.Comment
 		}
